@@ -623,7 +623,7 @@ theorem general_surj (a : Avail) (q firstN : Nat) (w : List Nat) (hw : IsBounded
     ∃ j, j < countFrom a q q 0 firstN ∧ findFrom a q firstN q 0 firstN [] 1 j = .ok (.inl w) := by
   obtain ⟨h1, h2, h3⟩ := hw
   have hfit : Fits q a 0 firstN [] w :=
-    ⟨h2, fun i hi => absurd hi (Nat.not_lt_zero _), fun i _ hq => h3 i hq, by simp [h1]⟩
+    ⟨h2, fun i hi => absurd hi (Nat.not_lt_zero _), fun i _ hq => h3 i hq, by rw [List.filter_eq_self.mpr (fun x _ => by simp)]; exact h1⟩
   obtain ⟨j, hj, hf⟩ := findFrom_surj a q firstN q 0 firstN [] 1 w (Inv.init q firstN) hfit
   exact ⟨j, by rwa [Nat.one_mul] at hj, hf⟩
 
@@ -646,10 +646,17 @@ theorem jthPrefix_slow (q : Nat) (a : Avail) (firstN j : Nat) (h : ¬ fastPath a
   cases a with
   | uniform m =>
     simp only [fastPath] at h
-    simp only [jthPrefix, countPrefixes, if_neg h]
-    trace_state
-    exact ⟨rfl, rfl⟩
-  | counters cs => exact ⟨rfl, rfl⟩
+    simp only [jthPrefix, countPrefixes, if_neg h, jthGeneral]
+    refine ⟨?_, trivial⟩
+    cases findFrom (Avail.uniform m) q firstN q 0 firstN [] 1 j with
+    | error e => rfl
+    | ok r => cases r <;> rfl
+  | counters cs =>
+    simp only [jthPrefix, countPrefixes, jthGeneral]
+    refine ⟨?_, trivial⟩
+    cases findFrom (Avail.counters cs) q firstN q 0 firstN [] 1 j with
+    | error e => rfl
+    | ok r => cases r <;> rfl
 
 theorem jthPrefix_fast (q : Nat) (a : Avail) (firstN j : Nat) (h : fastPath a firstN) :
     (jthPrefix q a firstN j = match jthCombination firstN q j with
@@ -661,8 +668,7 @@ theorem jthPrefix_fast (q : Nat) (a : Avail) (firstN j : Nat) (h : fastPath a fi
   | uniform m =>
     simp only [fastPath] at h
     simp only [jthPrefix, countPrefixes, if_pos h]
-    trace_state
-    refine ⟨rfl, rfl, fun w => ⟨fun hw => ⟨hw.1, hw.2.1⟩, fun hw => ⟨hw.1, hw.2, fun i _ => ?_⟩⟩⟩
+    refine ⟨by cases jthCombination firstN q j <;> rfl, trivial, fun w => ⟨fun hw => ⟨hw.1, hw.2.1⟩, fun hw => ⟨hw.1, hw.2, fun i _ => ?_⟩⟩⟩
     have := List.count_le_length (a := i) (l := w)
     have := hw.1
     simp only [Avail.at]; omega
